@@ -20,7 +20,8 @@ ASSUMPTIONS = [
 
 SCORERS = [None, {"cls": "CUSUM"}, {"cls": "L2Cost"}, {"cls": "ChangeScore", "cost": {"cls": "L2Cost"}},
            {"cls": "WeightedCUSUM", "weights": [0.0, 2.0, -1.0]}, {"cls": "ChangeScore", "cost": {"cls": "TrendPenalisedL2Cost", "weight": 0.5}},
-           {"cls": "GaussianVarCost"}, "function", "table", {"cls": "SecondMomentChangeScore"}]
+           {"cls": "GaussianVarCost"}, "function", "table", {"cls": "SecondMomentChangeScore"},
+           {"cls": "WelchChangeScore"}]
 
 
 @st.composite
@@ -54,6 +55,8 @@ def cases(draw, tier):
     scale = draw(st.sampled_from([0.3, 1.0, 0.0, 2.0, None]))
     if isinstance(sc, dict) and sc["cls"] in ("TableChangeScore", "FunctionChangeScore") and scale is not None:
         scale = draw(st.sampled_from([0.2, 0.0, 0.05, 0.4, 0.8]))
+    if isinstance(sc, dict) and sc["cls"] == "WelchChangeScore" and scale is None:
+        scale = 1.0  # (a threshold tuned on undefined scores is itself undefined)
     level = draw(K.level_strategy)
     want_int64 = draw(st.booleans())
     n_train = draw(st.sampled_from([None, None, "shorter", "longer", "same_buffer"]))
@@ -118,9 +121,12 @@ def check(case):
     if len(s) != n:
         raise Violation("scores do not have one entry per sample", got=len(s), n=n)
     want = model_scores(params, X)
-    tol = 1e-9 * (np.abs(want) + K.score_magnitude(params["change_score"], X, 2 * b))
-    if np.any(np.abs(s - want) > tol):
-        t = int(np.argmax(np.abs(s - want) - tol))
+    tol = 1e-9 * (np.abs(np.nan_to_num(want)) + K.score_magnitude(params["change_score"], X, 2 * b))
+    # an undefined (NaN / inf) column score makes the column sum undefined: the same positions must be undefined in both
+    undefined = ~np.isfinite(want)
+    off = (np.isfinite(s) == undefined) | (~undefined & (np.abs(np.nan_to_num(s) - np.nan_to_num(want)) > tol))
+    if np.any(off):
+        t = int(np.argmax(off))
         raise Violation("score at t is not the change score between X[t-b:t] and X[t:t+b] (0 outside [b, n-b])",
                         t=t, bandwidth=b, n=n, reported=float(s[t]), expected=float(want[t]))
     sname = params["change_score"]["cls"] if params["change_score"] else "default"
